@@ -163,6 +163,10 @@ func (c *corpusTree) ensureDBs() error {
 	for _, f := range c.tree.DepFiles {
 		all = append(all, filepath.Join(c.root, "depmod", f.Rel))
 	}
+	// the string-table package first, so that its signature is within the cap
+	sort.SliceStable(all, func(i, j int) bool {
+		return strings.Contains(all[i], "/strtab/") && !strings.Contains(all[j], "/strtab/")
+	})
 	for _, path := range all {
 		f := struct{ Rel string }{path}
 		res, err := LoadAndFingerprint(RealFileSystem{}, path)
@@ -304,7 +308,7 @@ func (c *corpusTree) ensureDBs() error {
 }
 
 func cleanupCorpus() {
-	if corpusRoot != "" {
+	if corpusRoot != "" && os.Getenv("VERIF_KEEP_CORPUS") == "" {
 		os.RemoveAll(corpusRoot)
 	}
 }
@@ -514,7 +518,7 @@ func runC10(t *vs.Tape, cfg map[string]string) (res vs.Result) {
 	}
 	// trees whose database has a crowded signature bucket (many equal-confidence
 	// candidates per function) are mostly used for the commands that consult it
-	crowded := seed%3 == 0
+	crowded := seed%3 == 0 || seed%6 == 5 // (seed%6 == 5: the tree with the over-budget string table)
 	cmd := cfg["cmd"]
 	if cmd == "" {
 		w := []int{2, 1, 2}
@@ -653,7 +657,7 @@ func runC10(t *vs.Tape, cfg map[string]string) (res vs.Result) {
 	// "from run to run" also means from process to process: a fraction of the
 	// evaluations repeats the command in a fresh operating-system process (this
 	// binary re-executed, real file system, no simulator) and compares the bytes
-	if res.Violation == nil && t.Chance("fresh.process", 1, 5) {
+	if res.Violation == nil && (t.Chance("fresh.process", 1, 5) || (seed%6 == 5 && cmd != "diff")) {
 		sp := c10ChildSpec{Cmd: cmd, Target: target, DB: db, Strict: strict, WithScan: withScan, Threshold: threshold, Exact: exact,
 			DepsDepth: depsDepth, ScanDeps: scanDeps, PairOld: ct.pairOld, PairNew: ct.pairNew}
 		out, failed, infra := c10Spawn(sp)
